@@ -1,6 +1,6 @@
 (* One entry point for the correspondence check: numeric opcode + wire value. *)
 From WS Require Import Base.Py.
-From WS Require Folding.Model TP.Model Evaluate.Model Puddle.Model Separator.Model Dibs.Model Baseline.Model Prepare.Model Stats.Model Syll.Model.
+From WS Require Folding.Model TP.Model Evaluate.Model Puddle.Model Separator.Model Dibs.Model Baseline.Model Prepare.Model Stats.Model Syll.Model AG.Model.
 
 Definition dispatch (op : Z) (j : J) : J :=
   match op with
@@ -25,5 +25,11 @@ Definition dispatch (op : Z) (j : J) : J :=
   | 1301 => Stats.Model.run_stats j
   | 1401 => Syll.Model.run_syllabify j
   | 1402 => Syll.Model.run_syllabify_word j
+  | 1501 => AG.Model.run_yield_parses j
+  | 1502 => AG.Model.run_segment_outputs j
+  | 1503 => AG.Model.run_nparses j
+  | 1504 => AG.Model.run_setup_seed j
+  | 1505 => AG.Model.run_emitted j
+  | 1506 => AG.Model.run_grammar_phones j
   | _ => j_bad
   end%Z.
